@@ -268,6 +268,8 @@ func checkC20(c *core.Ctx) {
 	p := c.P
 	pkg := "tcpassembly/tcpreader"
 	c.Explain = "TSTATE (DESIGN.md 3.8) for tcpreader.ReaderStream: explicit exploration of the product of each consumer method's CFG with the abstract object state {first, closed, ackOwed, channelClosed, len(current)==0}, closed under arbitrary call sequences of Read and Close starting from the state NewReaderStream builds (all reachable exit states are fed back as entry states; 2 methods x at most 48 states). Decides: (R20.1) no receive from the data channel while an acknowledgement is owed, no acknowledgement when none is owed or after the channels were closed; on the assembler side Reassembled performs exactly one send followed by one receive of the acknowledgement; (R20.2) both channels are closed in exactly one function, once each; (R20.3) Read returns io.EOF only with closed set and nothing buffered. Not decided: byte equality of what is read, deadlock freedom against arbitrary assembler behaviour, timing."
+	drainToEOF(c, c.Rule("R20.6", "T", "DiscardBytesToEOF returns only after the reader reported io.EOF"))
+	stripEmptyPostcondition(c, c.Rule("R20.7", "T", "stripEmpty leaves the queue empty or with a non-empty chunk in front"))
 	r1 := c.Rule("R20.1", "T", "ack-owed typestate of the reader/assembler hand-shake over all Read/Close sequences")
 	r2 := c.Rule("R20.2", "T", "both channels closed exactly once, in one function")
 	r4 := c.Rule("R20.4", "T", "the per-chunk loss flag is cleared whenever a chunk leaves the reader's queue (every r.current = r.current[k:] is followed by lossReported = false)")
@@ -510,4 +512,129 @@ func checkC20(c *core.Ctx) {
 			r2.Violate(key+"close-count:"+f, p.Pos(cmp.Pos()), fmt.Sprintf("channel %s is closed at %d sites, expected exactly one (consumers waiting on it never wake up / double close)", f, n), nil)
 		}
 	}
+}
+
+// drainToEOF (R20.6): DiscardBytesToEOF is the helper consumers use to release
+// the assembler; it must not return before the reader reported io.EOF: every
+// return is dominated by a successful test of the error against io.EOF.
+func drainToEOF(c *core.Ctx, r *core.Rule) {
+	p := c.P
+	fn := p.Func("tcpassembly/tcpreader", "DiscardBytesToEOF")
+	if fn == nil || len(fn.Blocks) == 0 {
+		r.Missing("tcpreader.DiscardBytesToEOF", "not found")
+		return
+	}
+	isEOFTest := func(v ssa.Value) (bool, bool) { // recognised, polarity (true = holds when error is EOF)
+		switch x := v.(type) {
+		case *ssa.BinOp:
+			if x.Op == token.EQL || x.Op == token.NEQ {
+				for _, s := range []ssa.Value{x.X, x.Y} {
+					if ld, ok := s.(*ssa.UnOp); ok && ld.Op == token.MUL {
+						if g, ok := ld.X.(*ssa.Global); ok && g.Name() == "EOF" {
+							return true, x.Op == token.EQL
+						}
+					}
+				}
+			}
+		case *ssa.Call:
+			if f := x.Call.StaticCallee(); f != nil && f.String() == "errors.Is" {
+				return true, true
+			}
+		}
+		return false, false
+	}
+	bad := 0
+	for i, ret := range core.Returns(fn) {
+		ok := false
+		for _, dc := range core.DomConds(ret.Block()) {
+			if rec, pol := isEOFTest(dc.V); rec && pol == dc.Truth {
+				ok = true
+			}
+		}
+		key := fmt.Sprintf("%s/return#%d/only-at-EOF", core.FnKey(fn), i+1)
+		if ok {
+			r.OK(key, p.InstrPos(ret), "dominated by err == io.EOF")
+		} else {
+			bad++
+			r.Violate(key, p.InstrPos(ret), "DiscardBytesToEOF can return although the reader has not reported io.EOF (another condition also ends the loop): a consumer that relies on it to drain the stream leaves a delivered batch unacknowledged, and the assembler stays blocked in Reassembled", nil)
+		}
+	}
+}
+
+// stripEmptyPostcondition (R20.7): stripEmpty leaves the queue empty or with a
+// non-empty chunk in front — Read relies on that to tell "no data yet" from
+// data.  Its loop may therefore be left only by its own length tests; any
+// other exit leaves an empty chunk in front, which Read neither consumes nor
+// acknowledges.
+func stripEmptyPostcondition(c *core.Ctx, r *core.Rule) {
+	p := c.P
+	fn := p.Func("tcpassembly/tcpreader", "ReaderStream.stripEmpty")
+	if fn == nil || len(fn.Blocks) == 0 {
+		r.Missing("tcpreader.(*ReaderStream).stripEmpty", "not found")
+		return
+	}
+	// the loop
+	var h *ssa.BasicBlock
+	inLoop := map[*ssa.BasicBlock]bool{}
+	for _, cand := range fn.Blocks {
+		var work []*ssa.BasicBlock
+		for _, pr := range cand.Preds {
+			if cand.Dominates(pr) {
+				work = append(work, pr)
+			}
+		}
+		if len(work) == 0 {
+			continue
+		}
+		h = cand
+		inLoop = map[*ssa.BasicBlock]bool{cand: true}
+		for len(work) > 0 {
+			x := work[len(work)-1]
+			work = work[:len(work)-1]
+			if inLoop[x] {
+				continue
+			}
+			inLoop[x] = true
+			work = append(work, x.Preds...)
+		}
+		break
+	}
+	key := core.FnKey(fn) + "/leaves-front-non-empty"
+	if h == nil {
+		r.Undecided(key, p.Pos(fn.Pos()), "no loop found")
+		return
+	}
+	var bad ssa.Instruction
+	for b := range inLoop {
+		iff, ok := b.Instrs[len(b.Instrs)-1].(*ssa.If)
+		exits := false
+		for _, s := range b.Succs {
+			if !inLoop[s] {
+				exits = true
+			}
+		}
+		if !exits {
+			continue
+		}
+		lenTest := false
+		if ok {
+			if bo, isB := iff.Cond.(*ssa.BinOp); isB {
+				if _, l := core.IsLen(bo.X); l {
+					lenTest = true
+				}
+				if _, l := core.IsLen(bo.Y); l {
+					lenTest = true
+				}
+			}
+		}
+		if !lenTest {
+			bad = b.Instrs[len(b.Instrs)-1]
+		}
+	}
+	r.Check(bad == nil, key, p.Pos(fn.Pos()), "the loop is left only by its length tests", "stripEmpty can stop with an empty chunk still at the front of the queue"+func() string {
+		if bad != nil {
+			return " (exit at " + p.InstrPos(bad) + ")"
+		}
+		return ""
+	}()+": Read then returns (0, nil) for ever — it neither consumes the chunk nor acknowledges the batch — so the stream never reaches EOF and the assembler stays blocked")
 }
